@@ -176,6 +176,15 @@ theorem exec_inv : ∀ (f : Nat) (t : Task) (w : World), Inv w.c → RInv (exec 
             · exact hw
           | nop => exact hw
           | ret0 => exact hw
+          | gh g =>
+            try simp only
+            refine andThen_inv (ih _ _ (by exact hw)) ?_
+            intro w1 v h1
+            split
+            · cases g <;> (try simp only) <;> first
+                | exact h1
+                | (split <;> first | exact raise_inv (by exact h1) | exact h1)
+            · exact ih _ _ (by exact h1)
           | ra a verb =>
             try simp only
             split
